@@ -156,12 +156,17 @@ func writeRecordConverter(td *dsl.RecordDefinition, w *formatting.IndentedWriter
 			for _, f := range td.Fields {
 				fieldId := common.FieldIdentifierName(f.Name)
 				if g, ok := dsl.GetUnderlyingType(f.Type).(*dsl.GeneralizedType); ok && g.Cases.HasNullOption() && g.Dimensionality == nil {
-					fmt.Fprintf(w, "if (field_val := value[\"%s\"]) is not None:\n", fieldId)
+					if g.Cases.IsOptional() {
+						// in a structured array an optional is a (has_value, value) pair, never None
+						fmt.Fprintf(w, "if (field_val := value[\"%s\"])[\"has_value\"]:\n", fieldId)
+					} else {
+						fmt.Fprintf(w, "if (field_val := value[\"%s\"]) is not None:\n", fieldId)
+					}
 					w.Indented(func() {
 						fmt.Fprintf(w, "json_object[\"%s\"] = self._%s_converter.numpy_to_json(field_val)\n", f.Name, fieldId)
 					})
 				} else if isGenericParameterReference(f.Type) {
-					fmt.Fprintf(w, "if not self._%s_supports_none or value[\"%s\"] is not None:\n", fieldId, fieldId)
+					fmt.Fprintf(w, "if not self._%s_supports_none or not self._%s_converter.numpy_is_none(value[\"%s\"]):\n", fieldId, fieldId, fieldId)
 					w.Indented(func() {
 						fmt.Fprintf(w, "json_object[\"%s\"] = self._%s_converter.numpy_to_json(value[\"%s\"])\n", f.Name, fieldId, fieldId)
 					})
